@@ -364,6 +364,11 @@ func parentMain(p *Prop, tier string) int {
 	}
 	defer os.RemoveAll(scratch)
 	self, _ := os.Executable()
+	if old, _ := filepath.Glob(filepath.Join(VerifDir, "replays", p.ID+"-*.json")); len(old) > 0 {
+		for _, f := range old {
+			os.Remove(f)
+		}
+	}
 
 	var mu sync.Mutex
 	results := map[int]unitResult{}
